@@ -26,7 +26,7 @@ class DryReal:
         leg = rng.random() < 0.25
         project = layouts.gen_project(rng, mode=rng.choice(["plain", "bytes"]), allow_mixed=False,
                                       vcs=rng.choice(["none", "fake"]), legacy=leg,
-                                      allow_odd_paths=True)
+                                      allow_odd_paths=True, invalid_utf8=True)
         if project["vcs"] is not None and (any(ch in f["path"] for f in project["files"] for ch in " '\"") or
                                            any(ord(ch) > 127 for f in project["files"] for ch in f["path"])):
             project["vcs"] = None
@@ -66,6 +66,8 @@ class DryReal:
         regime[base.syntax] = project.get("cfg_regime", "lf")
         ctx.sample = {"campaign": self.name, "pattern": pattern, "start": text, "ops": case["ops"][:2],
                       "files": sorted(regime)}
+        if project.get("invalid_utf8"):
+            ctx.probe("file_with_invalid_utf8_byte")
         for op in case["ops"]:
             clock = tc.step_clock(ctx, clock, op.get("delta", 0), two_digit)
             flags = dict(op.get("flags", {}))
@@ -197,7 +199,7 @@ class DryReal:
                     bad = True
                     break
                 sep = SEP[regime.get(path, "lf")]
-                old_lines = predicted[path].decode("utf-8").split(sep)
+                old_lines = predicted[path].decode("utf-8", "surrogateescape").split(sep)
                 try:
                     new_lines = udiff.apply(old_lines, hunks)
                 except udiff.DiffError as ex:
@@ -206,7 +208,7 @@ class DryReal:
                                   "diff for %r does not apply to the current file: %s" % (path, ex))
                     bad = True
                     break
-                predicted[path] = sep.join(new_lines).encode("utf-8")
+                predicted[path] = sep.join(new_lines).encode("utf-8", "surrogateescape")
                 if path in base.links:
                     predicted[base.links[path]] = predicted[path]     # written through the link
             if bad:
